@@ -183,7 +183,7 @@ theorem pre_ok_call (T : Table) (hT : T.WF) (ro : Bool) (gas : Nat) (c : Choice)
     simp only [Except.ok.injEq, Prod.mk.injEq] at h
     obtain ⟨h1, h2⟩ := h
     omega
-  | call | callCode | delegateCall | staticCall =>
+  | call | callCode | delegateCall | staticCall | asset =>
     simp only [] at h
     obtain ⟨temp, _, h2, h3, h4⟩ := preCall_ok _ _ _ _ _ _ _ _ h
     split at h2 <;> simp_all <;> omega
@@ -226,12 +226,12 @@ theorem step_shape (T : Table) (hT : T.WF) (m : Machine) (c : Choice) (f : Frame
         exact .pop g' res' (by omega) h2 h3
       · split
         · obtain ⟨g', res', h1, h2, h3⟩ := finishFrame_frames T.params
-            { m with journal := if (T.info c.op).writes then m.journal ++ List.replicate c.writes .write else m.journal }
+            { m with journal := if (T.info c.op).writes then m.journal ++ c.wtags.map .write else m.journal }
             f rest .reverted g 0
           exact .pop g' res' (by omega) h2 h3
         · split
           · obtain ⟨g', res', h1, h2, h3⟩ := finishFrame_frames T.params
-              { m with journal := if (T.info c.op).writes then m.journal ++ List.replicate c.writes .write else m.journal }
+              { m with journal := if (T.info c.op).writes then m.journal ++ c.wtags.map .write else m.journal }
               f rest .ok g c.retLen
             exact .pop g' res' (by omega) h2 h3
           · rename_i hr hh
